@@ -84,6 +84,7 @@ enum
     OP_RUN = 0,           // a = number of iterations to add
     OP_RELOAD,            // serialise, destroy, rebuild from text
     OP_ROLLBACK,          // a = k
+    OP_REDO,              // the last iteration again, by hand, with a calls more
     OP_COUNT
 };
 
